@@ -1,6 +1,7 @@
 """C13 - repeatability preconditions of the simplifier: no hidden state, fixed-point plumbing, cache containers."""
 from ..tree import *
 from .. import norm
+from .. import norm as psanorm
 from ..norm import tail_value  # noqa
 from ..flow import Index
 from .. import callgraph
@@ -179,6 +180,35 @@ def plumbing(ctx):
                 later = [a for a in assigns if peel(a["l"])["id"] == root and gix.precedes(l, a) and not contains(l, a) and (gix.precedes(a, use) or (wloop is not None and contains(wloop, a)))]
                 if not later:
                     endpoint = True
+        if not (noop or endpoint) and v.get("k") == "local":
+            # the stored value comes out of a chase that ends on the fixed-point test itself: every value it can be is a local x that left
+            # the chase under `m[x] == x` (e.g. `loop { let next = m[cur]?; if next == cur { return Some(cur) } cur = next }` in an inlined helper)
+            src = psanorm.value_source(gix, gdefs, v) if hasattr(psanorm, "value_source") else v
+            leaves = []
+            for cs_, lf in psanorm.result_table(gix, v):
+                leaves.append((cs_, lf))
+            ok_all = bool(leaves)
+            for cs_, lf in leaves:
+                lf0 = peel(lf)
+                if lf0.get("k") != "local":
+                    ok_all = False
+                    break
+                site = lf
+                conds = list(cs_) + list(psanorm.path_conditions(gix, site))
+                good = False
+                for c_, pol in conds:
+                    if pol and c_.get("k") == "binary" and c_["op"] == "==":
+                        for x, y in ((c_["l"], c_["r"]), (c_["r"], c_["l"])):
+                            if local_id(x) is not None and local_id(x) == local_id(lf0):
+                                yi = strip_try(resolve(peel(y)))
+                                if yi.get("k") == "local":
+                                    ini = LET_INITS.get(yi["id"]) or LET_INITS.get(canon(yi["id"]))
+                                    yi = strip_try(peel(ini)) if ini is not None else yi
+                                if yi.get("k") == "index" and is_local(yi["e"], gm) and local_id(yi["i"]) is not None and local_id(yi["i"]) == local_id(lf0):
+                                    good = True
+                if not good:
+                    ok_all = False
+            endpoint = ok_all
         okg = okg and (noop or endpoint)
     ctx.inst("R13.2", "get_fixed_point:compression-writes-end-point", okg, g["span"], "path compression may only store the end point of the chain (the value reached by the chase loop): %s" % [show(w) for w in ws], sample=[show(w) for w in ws])
     rets = [n["e"] for n in gix.nodes if n.get("k") == "return" and "e" in n] + [stmts_of(g["body"])[-1]]
